@@ -306,6 +306,27 @@ Rebind(r, src, p, bv) ==
           /\ last' = IF y.ok THEN [k |-> "res", r |-> r] ELSE Raise
   /\ UNCHANGED <<regs, tflag>>
 
+\* x = unyt_array([1.0, 2.0], q, registry=r);  x.to(u) | x.in_units(u) | x.to_value(u) | x.convert_to_units(u)
+\* where u is a Unit OBJECT owned by another registry: Unit(p, registry=src), for src = 0 the exported unyt.<p>.
+\* No registry and no unit object changes owner, nothing is written beyond the two constructions; the converted
+\* data carries u itself (so it lives in src afterwards).
+Hows == {"to", "in_units", "to_value", "convert_to_units"}
+Convert(r, q, src, p, how) ==
+  /\ regs[r].live /\ regs[src].live /\ r # src
+  /\ (src = 0 => p \in {"m", "km"})
+  /\ Log([op |-> "convert", r |-> r, str |-> q, r2 |-> src, str2 |-> p, how |-> how])
+  /\ LET d1 == regs[r].d c1 == regs[r].c sd == regs[src].d sc == regs[src].c
+         x == ConstructR(tabs[d1], memo[c1], q)
+         t1 == [tabs EXCEPT ![d1] = x.tab]
+         m1 == [memo EXCEPT ![c1] = x.mem]
+         y == IF src = 0 THEN [ok |-> TRUE, tab |-> t1[sd], mem |-> m1[sc]] ELSE ConstructR(t1[sd], m1[sc], p)
+         t2 == [t1 EXCEPT ![sd] = y.tab]
+         m2 == [m1 EXCEPT ![sc] = y.mem] IN
+     IF ~x.ok THEN /\ tabs' = t1 /\ memo' = m1 /\ last' = Raise
+     ELSE /\ tabs' = t2 /\ memo' = m2
+          /\ last' = IF ~y.ok THEN Raise ELSE IF how = "to_value" THEN Ok ELSE [k |-> "res", r |-> src]
+  /\ UNCHANGED <<regs, tflag>>
+
 (* ---- binary operations on quantities of two registries ---- *)
 \* which table keys simplify() looks up, in order (_cancel_mul over the ordered factors)
 NameLt(a, b) == \E i, j \in DOMAIN KeySeq : KeySeq[i] = a /\ KeySeq[j] = b /\ i < j
@@ -347,7 +368,7 @@ C13_NoSharing == \A a, b \in Live : ~SameGroup(a, b) => (regs[a].d # regs[b].d /
 \* written by lut= the group that was handed over; every other call (construction of units, unit systems,
 \* namespaces, persistence, copies, mixed arithmetic) none - C13 does not speak about a call's own registry,
 \* except for mixed arithmetic ("never write to either") and modify/remove on the default registry ("refuse")
-MayChange(e) == IF e.op \in {"binop", "rebind", "new"} \/ (e.r = 0 /\ e.op \in {"modify", "remove"}) THEN {}
+MayChange(e) == IF e.op \in {"binop", "rebind", "convert", "new"} \/ (e.r = 0 /\ e.op \in {"modify", "remove"}) THEN {}
                 ELSE {regs[e.r].grp}
 \* C13_Frame (action): the digest of every registry outside MayChange is the same before and after
 FrameBroken(e) == {r \in Live : regs[r].grp \notin MayChange(e) /\ DigestIn(regs', tabs', memo', r) # Digest(r)}
